@@ -328,8 +328,7 @@ Theorem h_build_names c b : hc_built c = true -> h_build c = Some b ->
                              /\ usage_name_fallback sb = built_usage_name c mid sc)
                (hc_subs c) (hc_subs b).
 Proof.
-  intros Hb H. unfold h_build in H. replace (hc_height c + 3)%nat with (S (hc_height c + 2)) in H by lia.
-  set (n := (hc_height c + 2)%nat) in H.
+  intros Hb H. unfold h_build, tree_fuel in H. set (n := tree_fuel_pred) in H.
   assert (E : h_build_recursive (S n) c = c <| hc_subs := map (h_build_recursive n) (hc_subs c) |>).
   { cbn [h_build_recursive]. unfold h_build_self_x. rewrite Hb. reflexivity. }
   rewrite E in H. destruct (bin_names_inv n _ b H) as [mid [subs [Hm [Hs ->]]]].
@@ -713,7 +712,7 @@ Qed.
     width and mode *)
 Theorem padding_safe_flat c b use_long w :
   cmd_ok dw c -> flat_cond c = true -> h_build c = Some b -> flat_tree_ok dw b ->
-  usage_ok (hc_height c + 2) c ->
+  usage_ok tree_fuel c ->
   write_help_flat dw c use_long w <> None.
 Proof.
   intros Hc Hf Hb Hok Hu. unfold write_help_flat, flat_usage. destruct (usage_lines_total _ c Hu) as [ls ->].
